@@ -36,6 +36,8 @@ pub enum Sz {
     XL,
     /// fixed number of bytes
     N(u32),
+    /// the byte image of a CRC-valid frame (see damage::embedded_frame_payload)
+    Emb,
 }
 
 impl Sz {
@@ -48,6 +50,7 @@ impl Sz {
             Sz::L => BLOCK * 3 / 2,
             Sz::XL => FILE + BLOCK / 2 + 12,
             Sz::N(n) => n as usize,
+            Sz::Emb => crate::damage::embedded_frame_payload().len(),
         }
     }
 }
@@ -130,6 +133,9 @@ impl Resolver {
                     .iter()
                     .map(|sz| {
                         self.uniq += 1;
+                        if *sz == Sz::Emb {
+                            return Arc::from(crate::damage::embedded_frame_payload());
+                        }
                         payload(self.uniq, sz.len())
                     })
                     .collect();
